@@ -254,12 +254,30 @@ HAND_ABSTRACT_QUERIES = [
 HAND_ROOT_ODD = ("{ oddRoot plain { x } }", {})
 
 
+# parents of fields WITHOUT resolver in other shapes than dict / plain attribute object: a subscript-only record
+# (not a Mapping, no attributes), an attribute object one of whose attributes raises when read
+HAND_PARENT_SHAPES = [
+    ("{ items { name info { x y } ... on A { a } ... on B { b } } }", [(["items"], "rec_parent")]),
+    ("{ items { name info { x y } ... on A { a } ... on B { b } } }", [(["items"], "attr_raises")]),
+    ("{ one { name info { x must } } plain { x y must } }", [(["one"], "rec_parent"), (["plain"], "rec_parent")]),
+    ("{ one { name info { x must } } plain { x y must } }", [(["one"], "attr_raises"), (["plain"], "attr_raises")]),
+    ("{ strictItems { name ... on A { a } } ab { ... on A { a name } ... on B { b name } } }",
+     [(["strictItems"], "attr_raises"), (["ab"], "rec_parent")]),
+    ("{ infoGrid { x y must } namedGrid { name } }", [(["infoGrid"], "rec_parent"), (["namedGrid"], "attr_raises")]),
+]
+
+
 def hand_abstract_cases(rng, n_seeds=3):
     out = []
     for q, v in HAND_ABSTRACT_QUERIES:
         for _ in range(n_seeds):
             out.append({"query": q, "variables": dict(v), "opname": None, "kind": "query",
                         "oracle_seed": rng.randrange(1 << 30), "root": None, "adversarial": 0.0, "fail": 0.0})
+    r2 = random.Random(20260929)          # own generator: the stream of the cases above is not touched
+    for q, faults in HAND_PARENT_SHAPES:
+        for _ in range(n_seeds):
+            out.append({"query": q, "variables": {}, "opname": None, "kind": "query", "oracle_seed": r2.randrange(1 << 30),
+                        "root": None, "adversarial": 0.0, "fail": 0.0, "faults": [(list(p), k) for p, k in faults]})
     return out
 
 
@@ -471,16 +489,71 @@ def frag_uses_word(text, name):
 
 
 # ------------------------------------------------------------------ resolver data (oracle)
-class Obj:
-    """an attribute-style parent object"""
+def _raiser(exc):
+    def get(self):
+        raise exc
+    return property(get)
 
-    def __init__(self, cls, attrs):
+
+class Obj:
+    """an attribute-style parent object; `raising`: attributes whose ACCESS raises the given exception (a property
+    getter that fails) -- for the engine the same as an attribute holding that exception object"""
+
+    def __init__(self, cls, attrs, raising=None):
         self.__dict__.update(attrs)
         self._cls = cls
-        self.__class__ = type(cls, (Obj,), {})
+        self._raising = dict(raising or {})
+        self.__class__ = type(cls, (Obj,), {k: _raiser(e) for k, e in self._raising.items()})
 
     def _attrs(self):
-        return {k: v for k, v in self.__dict__.items() if k != "_cls"}
+        out = {k: v for k, v in self.__dict__.items() if k not in ("_cls", "_raising")}
+        out.update(self._raising)
+        return out
+
+
+class Rec(Obj):
+    """a subscript-only parent object (sqlite3.Row style): NOT a Mapping, and its data are not attributes"""
+
+    def __init__(self, cls, attrs):            # pylint: disable=super-init-not-called
+        self.__dict__["_data"] = dict(attrs)
+        self.__dict__["_cls"] = cls
+        self.__dict__["_raising"] = {}
+        self.__class__ = type(cls, (Rec,), {})
+
+    def __getitem__(self, key):
+        return self._data[key]
+
+    def _attrs(self):
+        return dict(self._data)
+
+
+def read_tr(result):
+    """the `__tr` marker the harness's custom type resolvers answer with"""
+    if isinstance(result, dict):
+        return result.get("__tr")
+    if isinstance(result, Rec):
+        return result._data.get("__tr", "Nope")
+    return getattr(result, "__tr", "Nope")
+
+
+def reshape_objects(v, kind, msg):
+    """the value v with its object values turned into subscript-only records (kind rec_parent) or into attribute
+    objects one attribute of which raises on access (kind attr_raises)"""
+    if isinstance(v, list):
+        return [reshape_objects(x, kind, msg) for x in v]
+    if isinstance(v, Obj):
+        v = OrderedDict(v._attrs())
+    if isinstance(v, dict) and "_typename" in v:
+        attrs = OrderedDict((k, reshape_objects(x, kind, msg)) for k, x in v.items())
+        cls = attrs["_typename"] if isinstance(attrs["_typename"], str) and attrs["_typename"].isidentifier() else "Thing"
+        if kind == "rec_parent":
+            return Rec(cls, attrs)
+        names = [k for k in attrs if k not in ("_typename", "__tr", "id")]
+        raising = {names[0]: TypeError(msg)} if names else {}
+        for k in raising:
+            attrs.pop(k)
+        return Obj(cls, attrs, raising)
+    return v
 
 
 class UserGraphQLError(Exception):
@@ -606,6 +679,12 @@ class Oracle:
                 continue              # key absent: default resolver yields None
             attrs[f["name"]] = self.value(rng, f["type"], depth + 1, False)
         if rng.random() < 0.2:
+            r2 = random.Random(len(attrs) * 31 + attrs["id"])       # own generator: the oracle's stream is not touched
+            shape = r2.choice(["obj", "obj", "rec", "rec", "raises"])
+            if shape == "rec":
+                return Rec(tname, attrs)
+            if shape == "raises":
+                return reshape_objects(dict(attrs), "attr_raises", USER_PREFIX + "attr-%d" % attrs["id"])
             return Obj(tname, {k: v for k, v in attrs.items() if k != "__tr" or True})
         return dict(attrs)
 
@@ -668,6 +747,8 @@ class Oracle:
                 return ("ret", 7)
             if kind == "bad_typename":
                 return ("ret", {"_typename": "Nope", "__tr": "Nope"})
+            if kind in ("rec_parent", "attr_raises"):
+                return ("ret", reshape_objects(Oracle(self.s, self.seed, 0.0, 0.0).value(rng, ftype, 0), kind, msg))
             if kind == "coerce_null":
                 # 99 is the value the custom scalar Odd serialises as null: a null produced DURING result coercion
                 # (for other types just another value, possibly an unserialisable one)
@@ -738,9 +819,13 @@ def realise(v):
         return [realise(x) for x in v]
     if isinstance(v, dict):
         return {k: realise(x) for k, x in v.items()}
+    if isinstance(v, Rec):
+        for k, x in list(v._data.items()):
+            v._data[k] = realise(x)
+        return v
     if isinstance(v, Obj):
         for k, x in list(v.__dict__.items()):
-            if k != "_cls":
+            if k not in ("_cls", "_raising"):
                 v.__dict__[k] = realise(x)
         return v
     return v
@@ -792,7 +877,7 @@ async def build_engine(s, schema_name, oracle_ref, rec, cfg=None, sdl=None):
         if (tname, fname) in s["field_type_resolvers"]:
             def ftr(result, ctx, info, abstract_type):
                 path = info.path.as_list()
-                out = result.get("__tr") if isinstance(result, dict) else getattr(result, "__tr", "Nope")
+                out = read_tr(result)
                 rec.tr_calls.append({"path": path, "abstract": abstract_type.name, "value": result, "ret": out})
                 return out
             kw["type_resolver"] = ftr
@@ -825,7 +910,7 @@ async def build_engine(s, schema_name, oracle_ref, rec, cfg=None, sdl=None):
             @TypeResolver(a, schema_name=schema_name)
             def tr(result, ctx, info, abstract_type):
                 path = info.path.as_list()
-                out = result.get("__tr") if isinstance(result, dict) else getattr(result, "__tr", "Nope")
+                out = read_tr(result)
                 rec.tr_calls.append({"path": path, "abstract": abstract_type.name, "value": result, "ret": out})
                 return out
         mktr(a)
